@@ -74,6 +74,13 @@ def step (_ : Unit) (ts : List String) : Unit × String :=
   let r : String := match ts with
     | ["deep", n, kind] => match n.toNat? with
       | some n => deepShow (decode (deepDoc n kind)) | none => "bad-op"
+    | ["sub", h, k] => match unhex h, k.toNat? with
+      | some d, some k =>
+        let r := decode d
+        if r.isNull then "null" else match pickSurvivor r k with
+        | some c => (if c.parent == none then "R+" else "R!") ++ dumpNode c
+        | none => "null"
+      | _, _ => "bad-op"
     | ["dec", h] => match unhex h with
       | some d => render (decode d) | none => "bad-op"
     | "enc" :: f :: rest => match build rest with
